@@ -1427,6 +1427,8 @@ def iface_lib_f1():
             Handler("query", "get_v2_info", ret="u64"),
             Handler("sudo", "x_y_z"),
             Handler("sudo", "sha256sum", [Arg("data_in", "Binary")]),
+            Handler("exec", "x_shift", [Arg("by", "i32")]),
+            Handler("query", "y_pos", ret="u64"),
         ],
     )
     eps = Iface(
@@ -1478,6 +1480,8 @@ def family_f1(rng):
                 Handler("exec", "transfer", [Arg("to", "Addr"), Arg("amount", "Uint128"), Arg("memo", "Option<String>")]),
                 Handler("exec", "swap_args", [Arg("first", "String"), Arg("second", "String")]),
                 Handler("exec", "swap_nums", [Arg("lo", "u32"), Arg("hi", "u32")]),
+                Handler("exec", "z_up", [Arg("n", "u8")]),
+                Handler("query", "q_of_x", [Arg("x", "String")], ret="String"),
                 Handler("query", "balance_of", [Arg("who", "Addr")], ret="u64", failarg=True),
                 Handler("query", "probe", [Arg("x", "u32")], ret="u64", failarg=True),
                 Handler("sudo", "nudge", [Arg("n", "u64")]),
